@@ -402,7 +402,10 @@ Fixpoint eval (d : decls) (w : world) (cx : ctx) (e : env) (t : term) (lg : list
       do (nv, _) <- eval d w Const e n [];
       do k <- as_int nv;
       do (v, lg1) <- eval d w cx e x lg;
-      if (k <=? 1) || copyT w then Done (VArr (repeat v (Z.to_nat k)), lg1)
+      (* a non-Copy operand is accepted for any length when it is a path to a constant
+         item (each element is a fresh evaluation of the constant) *)
+      if (match x with ConstPath _ => true | _ => (k <=? 1) || copyT w end)
+      then Done (VArr (repeat v (Z.to_nat k)), lg1)
       else CompileError ENotCopy
   | VecRepeat x n =>
       match cx with
